@@ -411,7 +411,7 @@ fn n_cases(prop: &str, tier: &str) -> usize {
 }
 
 fn option_grid(rng: &mut Rng, n: usize) -> Vec<OptRec> {
-    let derives = ["", "Serialize, Deserialize", "Debug", "Debug, Clone , serde::Deserialize", "Отладка(x)"];
+    let derives = ["", "Serialize, Deserialize", "Debug", "Debug, Clone , serde::Deserialize", "Отладка(x)", " Debug", "Debug ", "  ", "DEBUG"];
     let prefixes = ["@", "", "attr_", "$"];
     let texts = ["$text", "$value", "text", "#text"];
     let mut out = vec![OptRec::quick(), OptRec::sxr(), OptRec::quick_sorted()];
@@ -463,6 +463,8 @@ pub fn gen_history_cases(prop: &str, tier: &str, rng: &mut Rng, start: usize, n:
                 if thorough {
                     cfg.max_depth = 6;
                     cfg.max_fanout = 6;
+                    cfg.max_positions = 60;
+                    cfg.max_nodes = 250;
                 }
                 let themes: Vec<Theme> = match prop {
                     "C05" => vec![Theme::CaseVariants, Theme::Separators, Theme::SuffixTraps, Theme::Concat, Theme::Keywords, Theme::Mixed],
@@ -545,7 +547,7 @@ pub fn check_history(sum: &mut Summary) {
     // generated cases, in chunks (memory stays bounded for the thorough tier)
     let mut rng = Rng::new(seed ^ hash_str(&prop));
     let n = n_cases(&prop, &tier);
-    let chunk = 20_000;
+    let chunk = 8_000;
     let mut done = 0;
     while done < n {
         if let Some(d) = sum.deadline {
@@ -762,7 +764,16 @@ pub fn check_c12(sum: &mut Summary) {
             _ => (InputKind::Bytes(xml.clone().into_bytes()), "valid"),
         };
         let parser = match r.below(3) { 0 => None, 1 => Some("quick-xml-de".to_string()), _ => Some("serde-xml-rs".to_string()) };
-        let derive = match r.below(4) { 0 => None, 1 => Some(String::new()), 2 => Some("Debug, Clone".to_string()), _ => Some("Serialize, Deserialize, Отладка(x)".to_string()) };
+        let derive = match r.below(8) {
+            0 | 1 => None,
+            2 => Some(String::new()),
+            3 => Some("Debug, Clone".to_string()),
+            4 => Some("Serialize, Deserialize, Отладка(x)".to_string()),
+            // values a caller may pass that a careless normalisation would change
+            5 => Some(r.pick(&[" Debug", "Debug ", "  ", "Debug,  Clone", "\tDebug", "debug", "DEBUG"]).to_string()),
+            6 => Some(r.pick(&["Debug)]\n#[allow(x", "\"quoted\"", "a'b", "Serialize", ","]).to_string()),
+            _ => Some("serde::Serialize, serde::Deserialize".to_string()),
+        };
         let sort = match r.below(3) { 0 => None, 1 => Some("unsorted".to_string()), _ => Some("name".to_string()) };
         let output = match r.below(6) { 0 | 1 => OutKind::Stdout, 2 => OutKind::NewFile, 3 => OutKind::Existing("previous content\n".into()), 4 => OutKind::MissingDir, _ => OutKind::IsDirectory };
         if i == 0 {
